@@ -170,28 +170,27 @@ theorem mapM_getPairs_ok {e : Env} : ∀ (l : List Name), (∀ k ∈ l, ∃ v, e
     simp only [List.mapM_cons, Env.get_of_lookup hv, bind, Except.bind, pure, Except.pure] at hr ⊢
     simp [hr]
 
-theorem keys_split : ∀ (m : List (Name × Val)) (a : Name), a ∈ omKeys m →
-    a ∈ (plainOf m).map (·.1) ∨ a ∈ (iaOf m).map (·.1) := by
-  intro m; induction m with
-  | nil => intro a h; cases h
-  | cons kv rest ih =>
-    intro a h
-    obtain ⟨k, v⟩ := kv
-    simp only [omKeys, List.map_cons, List.mem_cons] at h
-    cases v with
-    | plain q =>
-      simp only [plainOf, iaOf, List.filterMap_cons, List.map_cons, List.mem_cons]
-      rcases h with h | h
-      · exact Or.inl (Or.inl h)
-      · exact (ih a h).imp (fun x => Or.inr x) id
-    | ia f =>
-      simp only [plainOf, iaOf, List.filterMap_cons, List.map_cons, List.mem_cons]
-      rcases h with h | h
-      · exact Or.inr (Or.inl h)
-      · exact (ih a h).imp id (fun x => Or.inr x)
-
 /-- the outcome of `createCache` in terms of the sort and the time-zero evaluation -/
-theorem createCache_cases {c : Content} (hok : OkV c) :
+theorem emitted_noIA {c : Content} (hok : OkV c) {extra : List (Name × Rat)}
+    (hnd : (extra.map (·.1)).Nodup) (hsub : ∀ a ∈ extra.map (·.1), a ∈ omKeys c.derived) :
+    (omUnion (plainOf c.pars) extra).filter (fun kv => !(omKeys c.derived).contains kv.1) = plainOf c.pars := by
+  have hn := hok.names
+  rw [omUnion_fresh extra _ hnd (fun a ha hp => hn.pd a (keys_plainOf_sub _ _ hp) (hsub a ha)),
+    List.filter_append]
+  have h1 : (plainOf c.pars).filter (fun kv => !(omKeys c.derived).contains kv.1) = plainOf c.pars := by
+    apply List.filter_eq_self.mpr
+    intro kv hkv
+    have : kv.1 ∉ omKeys c.derived :=
+      hn.pd kv.1 (keys_plainOf_sub _ _ (List.mem_map_of_mem (f := (·.1)) hkv))
+    simpa using this
+  have h2 : extra.filter (fun kv => !(omKeys c.derived).contains kv.1) = [] := by
+    apply List.filter_eq_nil_iff.mpr
+    intro kv hkv
+    have := hsub kv.1 (List.mem_map_of_mem (f := (·.1)) hkv)
+    simpa using this
+  rw [h1, h2, List.append_nil]
+
+theorem createCache_cases {c : Content} (hok : OkV c) (hia : noIAB c.pars = true) :
     (∀ e, sortDeps c.available c.deps = .error e → createCache c = .error e) ∧
     (∀ order e, sortDeps c.available c.deps = .ok order →
         evalSeq (defsE c order) (baseEnv (plainOf c.pars) (plainOf c.vars) [] 0) = .error e →
@@ -199,7 +198,7 @@ theorem createCache_cases {c : Content} (hok : OkV c) :
     (∀ order dep, sortDeps c.available c.deps = .ok order →
         evalSeq (defsE c order) (baseEnv (plainOf c.pars) (plainOf c.vars) [] 0) = .ok dep →
         ∃ cache, createCache c = .ok cache ∧ cache.order = order ∧ cache.basePars = plainOf c.pars
-          ∧ omKeys cache.init = omKeys c.vars) := by
+          ∧ omKeys cache.init = omKeys c.vars ∧ emittedPars c cache = plainOf c.pars) := by
   have hn := hok.names
   refine ⟨?_, ?_, ?_⟩
   · intro e h
@@ -212,25 +211,18 @@ theorem createCache_cases {c : Content} (hok : OkV c) :
     simp [createCache, hs, hok.data, this, bind, Except.bind]
   · intro order dep hs he
     obtain ⟨hond, homem⟩ := order_factsV hok hs
-    have hokind : ∀ k ∈ order, k ∈ (iaOf c.vars).map (·.1) ∨ k ∈ omKeys c.derived ∨ k ∈ omKeys c.rxns :=
-      fun k hk => (homem k).mp hk
+    have hokind : ∀ k ∈ order, IsElem c k := fun k hk => (homem k).mp hk
     have hev := evalInOrder_defsE hok hokind (baseEnv (plainOf c.pars) (plainOf c.vars) c.data 0)
     rw [hok.data, he] at hev
     have hdE : (defsE c order).map (·.1) = order := (mapM_defOfE hok hokind).2
     have hord_np : ∀ k ∈ order, k ∉ omKeys c.pars := by
       intro k hk hp
-      rcases hokind k hk with h | h | h
+      rcases hokind k hk with h | h | h | h
       · exact hn.vp k (keys_iaOf_sub _ _ h) hp
+      · rw [(plainOf_noIA hia).2] at h; cases h
       · exact hn.pd k hp h
       · exact hn.pr k hp h
-    obtain ⟨apn', hcls, _, _, _⟩ := classify_specV c hok.surs order [] [] (omKeys c.pars) hond
-      (fun k hk => ⟨hord_np k hk, hord_np k hk⟩)
-      (fun k _ hv => hn.vr k hv)
-      (fun k hk => by
-        rcases hokind k hk with h | h | h
-        · exact Or.inr (Or.inl (keys_iaOf_sub _ _ h))
-        · exact Or.inr (Or.inr (lookup_some_of_mem_keys h))
-        · exact Or.inl h)
+    obtain ⟨apn', hcls, _, _, hap2⟩ := classify_order hok hond homem
     have hall : c.allStoich = c.rxns.map fun kv => (kv.1, kv.2.stoich) := by
       simp [Content.allStoich, hok.surs]
     obtain ⟨tab, htab1, _⟩ := addRxns_num apn' dep (c.rxns.map fun kv => (kv.1, kv.2.stoich)) []
@@ -256,12 +248,26 @@ theorem createCache_cases {c : Content} (hok : OkV c) :
       (fun k hk => hdep_order k (List.mem_filter.mp (List.mem_filter.mp hk).1).1)
     refine ⟨Cache.mk order (omKeys c.vars)
               (order.filter fun k => !((omKeys c.vars).contains k || apn'.contains k)) (plainOf c.pars)
-              (omUnion (plainOf c.pars) extra) tab [] init, ?_, rfl, rfl, ?_⟩
+              (omUnion (plainOf c.pars) extra) tab [] init, ?_, rfl, rfl, ?_, ?_⟩
     · simp only [createCache, hs, hok.data, hev, hcls, hall, htab1, bind, Except.bind, List.reverse_nil,
         List.nil_append]
       simp only [bind, Except.bind, pure, Except.pure] at hinit hextra ⊢
       simp only [hinit, hextra]
     · exact (mapM_getPairs hinit).1
+    · have hexk := (mapM_getPairs hextra).1
+      refine emitted_noIA hok (by
+        rw [hexk]; exact (hond.sublist List.filter_sublist).sublist List.filter_sublist) ?_
+      intro a ha
+      rw [hexk] at ha
+      obtain ⟨h1, h2⟩ := List.mem_filter.mp ha
+      obtain ⟨hao, h3⟩ := List.mem_filter.mp h1
+      have hnv : a ∉ omKeys c.vars := by simpa using h2
+      have haa : a ∈ apn' := by
+        have : a ∈ omKeys c.vars ∨ a ∈ apn' := by simpa using h3
+        exact this.resolve_left hnv
+      rcases hap2 a hao haa with hp | ⟨_, _, d, hd, _⟩
+      · exact absurd hp (hord_np a hao)
+      · exact lookup_some_mem_keys hd
 
 /-! ### setting parameters -/
 
@@ -323,29 +329,32 @@ theorem setPars_pars (c : Content) (free : List Name) (ps : List Rat) :
 theorem keys_zip' {free : List Name} {ps : List Rat} (h : ps.length = free.length) :
     (free.zip ps).map (·.1) = free := List.map_fst_zip (Nat.le_of_eq h.symm)
 
-theorem setPars_ok {c : Content} (hok : OkV c) {free : List Name} {ps : List Rat} (hf : FreeOk c free ps) :
-    OkV (setPars c free ps) ∧ omKeys (setPars c free ps).pars = omKeys c.pars := by
+theorem setPars_ok {c : Content} (hok : OkV c) (hia : noIAB c.pars = true) {free : List Name} {ps : List Rat}
+    (hf : FreeOk c free ps) :
+    OkV (setPars c free ps) ∧ omKeys (setPars c free ps).pars = omKeys c.pars
+      ∧ noIAB (setPars c free ps).pars = true := by
   obtain ⟨h1, h2, _⟩ := setParsList_spec (free.zip ps) c.pars (by rw [keys_zip' hf.len]; exact hf.nd)
-    (by rw [keys_zip' hf.len]; exact hf.sub) hok.iaP
+    (by rw [keys_zip' hf.len]; exact hf.sub) hia
   have hk : omKeys (setPars c free ps).pars = omKeys c.pars := by rw [setPars_pars]; exact h1
-  refine ⟨?_, hk⟩
-  exact { surs := hok.surs, data := hok.data, iaP := by rw [setPars_pars]; exact h2,
+  refine ⟨?_, hk, by rw [setPars_pars]; exact h2⟩
+  exact { surs := hok.surs, data := hok.data,
           num := hok.num, nd := by rw [hk]; exact hok.nd, stNd := hok.stNd, eqs := hok.eqs,
           onVars := hok.onVars, nonempty := hok.nonempty }
 
-theorem setPars_static {c : Content} (hok : OkV c) {free : List Name} {ps : List Rat} (hf : FreeOk c free ps) :
+theorem setPars_static {c : Content} (hok : OkV c) (hia : noIAB c.pars = true) {free : List Name} {ps : List Rat}
+    (hf : FreeOk c free ps) :
     (setPars c free ps).available = c.available ∧ (setPars c free ps).deps = c.deps := by
-  obtain ⟨hok', hk⟩ := setPars_ok hok hf
+  obtain ⟨hok', hk, hia'⟩ := setPars_ok hok hia hf
   refine ⟨?_, ?_⟩
   · have h1 : omKeys (plainOf (setPars c free ps).pars) = omKeys (plainOf c.pars) := by
-      have a := keys_plainOf hok'.iaP
-      have b := keys_plainOf hok.iaP
+      have a := keys_plainOf hia'
+      have b := keys_plainOf hia
       simp only [omKeys] at a b hk ⊢
       rw [a, b, hk]
     simp only [Content.available, h1]
     rfl
   · have h1 : iaOf (setPars c free ps).pars = iaOf c.pars := by
-      rw [(plainOf_noIA hok'.iaP).2, (plainOf_noIA hok.iaP).2]
+      rw [(plainOf_noIA hia').2, (plainOf_noIA hia).2]
     simp only [Content.deps, Content.toSort, h1]
     rfl
 
@@ -407,12 +416,14 @@ def progOf (c : Content) (L : Lang) (order : List Name) (free : List Name) (cons
     retLen := if (templateOf L).sizedRet then some (omKeys c.vars).length else none }
 
 theorem genModel_free_ok {c : Content} (hok : OkV c) {L : Lang} (hL : L ≠ .jl) {cache : Cache}
-    (hcc : createCache c = .ok cache) (hinit : omKeys cache.init = omKeys c.vars)
-    {free : List Name} {prem : List (Name × Rat)} (hpop : popAll cache.basePars free = .ok prem) :
+    (hcc : createCache c = .ok cache) (hinit : omKeys cache.init = omKeys c.vars) (hia : noIAB c.pars = true)
+    {free : List Name} {prem : List (Name × Rat)} (hpop : popAll (emittedPars c cache) free = .ok prem) :
     genModel [] c L free = .ok (progOf c L cache.order free prem) := by
+  have hia' : noIA c.pars = true := hia
   unfold genModel progOf
   simp only [hcc, bind, Except.bind, hpop, emitBody_nil hok, pure, Except.pure, hinit, List.map_map,
-    Function.comp_def, target_id hL, List.append_assoc]
+    Function.comp_def, target_id hL, List.append_assoc, hia', Bool.not_true, Bool.and_false, Bool.false_eq_true,
+    if_false]
 
 /-- the tail of the program: derived values, reactions, differential equations -/
 def tailOf (c : Content) (order : List Name) : List (Name × Rhs) :=
@@ -468,17 +479,28 @@ theorem baseEnv_sameKeys {P P' V : List (Name × Rat)} (h : P.map (·.1) = P'.ma
 
 /-- the generated function with free parameters = the generated function of the model with those parameters set -/
 theorem genRun_free (c : Content) (L : Lang) (free : List Name) (t : Rat) (xs ps : List Rat)
-    (hL : L ≠ .jl) (hok : OkV c) (hf : FreeOk c free ps) (hxs : xs.length = c.vars.length) :
+    (hL : L ≠ .jl) (hok : OkV c) (hia : noIAB c.pars = true) (hf : FreeOk c free ps)
+    (hxs : xs.length = c.vars.length) :
     genRun [] c L free t xs ps = genRun [] (setPars c free ps) L [] t xs [] := by
-  obtain ⟨hok', hk'⟩ := setPars_ok hok hf
-  obtain ⟨hav, hdeps⟩ := setPars_static hok hf
-  have hdefs : ∀ o, defsE (setPars c free ps) o = defsE c o := fun o => rfl
-  obtain ⟨c1, c2, c3⟩ := createCache_cases hok
-  obtain ⟨d1, d2, d3⟩ := createCache_cases hok'
+  obtain ⟨hok', hk', hia'⟩ := setPars_ok hok hia hf
+  obtain ⟨hav, hdeps⟩ := setPars_static hok hia hf
+  have hias : iasOf (setPars c free ps) = iasOf c := by
+    show omUnion (iaOf c.vars) (iaOf (setPars c free ps).pars) = omUnion (iaOf c.vars) (iaOf c.pars)
+    rw [(plainOf_noIA hia').2, (plainOf_noIA hia).2]
+  have hdefOf : ∀ k, defOfE (setPars c free ps) k = defOfE c k := by
+    intro k
+    unfold defOfE
+    rw [hias]
+    rfl
+  have hdefs : ∀ o, defsE (setPars c free ps) o = defsE c o := by
+    intro o
+    simp only [defsE, hdefOf]
+  obtain ⟨c1, c2, c3⟩ := createCache_cases hok hia
+  obtain ⟨d1, d2, d3⟩ := createCache_cases hok' hia'
   rw [hav, hdeps] at d1 d2 d3
-  have hPk : (plainOf c.pars).map (·.1) = omKeys c.pars := keys_plainOf hok.iaP
+  have hPk : (plainOf c.pars).map (·.1) = omKeys c.pars := keys_plainOf hia
   have hPk' : (plainOf (setPars c free ps).pars).map (·.1) = omKeys c.pars := by
-    rw [keys_plainOf hok'.iaP, hk']
+    rw [keys_plainOf hia', hk']
   cases hs : sortDeps c.available c.deps with
   | error e =>
     simp [genRun, genModel, c1 e hs, d1 e hs, bind, Except.bind]
@@ -486,25 +508,27 @@ theorem genRun_free (c : Content) (L : Lang) (free : List Name) (t : Rat) (xs ps
     rcases evalSeq_sameKeys (defsE c order)
       (baseEnv_sameKeys (P := plainOf c.pars) (P' := plainOf (setPars c free ps).pars) (V := plainOf c.vars)
         (by rw [hPk, hPk'])) with ⟨dep, dep', he, he', _⟩ | ⟨err, he, he'⟩
-    · obtain ⟨cache, hcc, hord, hbp, hinit⟩ := c3 order dep hs he
-      obtain ⟨cache', hcc', hord', hbp', hinit'⟩ := d3 order dep' hs (by rw [hdefs]; exact he')
+    · obtain ⟨cache, hcc, hord, hbp, hinit, hem⟩ := c3 order dep hs he
+      obtain ⟨cache', hcc', hord', hbp', hinit', hem'⟩ := d3 order dep' hs (by rw [hdefs]; exact he')
       have hn := hok.names
       -- pop the free parameters
       obtain ⟨prem, hpop, hprem⟩ := popAll_ok free (plainOf c.pars) hf.nd (by rw [hPk]; exact hf.sub)
       have hne := diffEqs_nonempty hok
       unfold genRun
-      rw [genModel_free_ok hok hL hcc hinit (hbp ▸ hpop),
-        genModel_free_ok hok' hL hcc' hinit' (show popAll cache'.basePars [] = .ok cache'.basePars from rfl)]
+      rw [genModel_free_ok hok hL hcc hinit hia (by rw [hem]; exact hpop),
+        genModel_free_ok hok' hL hcc' hinit' hia'
+          (show popAll (emittedPars (setPars c free ps) cache') [] = .ok (emittedPars (setPars c free ps) cache')
+            from rfl)]
       simp only [bind, Except.bind]
       rw [runSLP_progOf hok hL _ _ _ t xs ps hxs hf.len hne,
-        runSLP_progOf hok' hL _ _ _ t xs [] hxs rfl hne, hord, hord', hbp']
+        runSLP_progOf hok' hL _ _ _ t xs [] hxs rfl hne, hord, hord', hem']
       -- the two start environments have the same lookups
       have hsv : SameVals (prem.reverse ++ (((omKeys c.vars).zip xs).reverse ++ ((free.zip ps).reverse ++ [("time", t)])))
           ((plainOf (setPars c free ps).pars).reverse ++ (((omKeys c.vars).zip xs).reverse
             ++ ((([] : List Name).zip ([] : List Rat)).reverse ++ [("time", t)]))) := by
         intro a
         obtain ⟨_, _, hl⟩ := setParsList_spec (free.zip ps) c.pars (by rw [keys_zip' hf.len]; exact hf.nd)
-          (by rw [keys_zip' hf.len]; exact hf.sub) hok.iaP
+          (by rw [keys_zip' hf.len]; exact hf.sub) hia
         have hlen : (omKeys c.vars).length = xs.length := by simp [omKeys, hxs]
         have hP'nd : ((plainOf (setPars c free ps).pars).map (·.1)).Nodup := by rw [hPk']; exact hn.pNd
         have hprem_nd : (prem.map (·.1)).Nodup ∨ True := Or.inr trivial
@@ -517,9 +541,9 @@ theorem genRun_free (c : Content) (L : Lang) (free : List Name) (t : Rat) (xs ps
             lookup_reverse_nodup _ _ hP'nd, hv]
         have hplain' : (plainOf (setPars c free ps).pars).lookup a
             = ((setParsList c.pars (free.zip ps)).lookup a).map plainVal := by
-          rw [(plainOf_noIA hok'.iaP).1, lookup_map_snd plainVal, setPars_pars]
+          rw [(plainOf_noIA hia').1, lookup_map_snd plainVal, setPars_pars]
         have hplain : (plainOf c.pars).lookup a = (c.pars.lookup a).map plainVal := by
-          rw [(plainOf_noIA hok.iaP).1, lookup_map_snd plainVal]
+          rw [(plainOf_noIA hia).1, lookup_map_snd plainVal]
         by_cases hfree : a ∈ free
         · -- a free parameter: bound as an argument on the left, as a constant on the right
           have hap : a ∈ omKeys c.pars := hf.sub a hfree
@@ -634,9 +658,17 @@ theorem FreeOk.of_B {c : Content} {free : List Name} {ps : List Rat} (h : freeOk
 /-- **free parameters**: the generated function called with values for the free parameters returns what the
     model returns after `update_parameters` with those values -/
 theorem equiv_free (c : Content) (L : Lang) (free : List Name) (t : Rat) (xs ps : List Rat)
-    (hL : L ≠ .jl) (hok : OkV c) (hf : FreeOk c free ps) (hxs : xs.length = c.vars.length) :
+    (hL : L ≠ .jl) (hok : OkV c) (hia : noIAB c.pars = true) (hf : FreeOk c free ps)
+    (hxs : xs.length = c.vars.length) :
     genRun [] c L free t xs ps = callRhs (setPars c free ps) t xs := by
-  rw [genRun_free c L free t xs ps hL hok hf hxs]
-  exact equiv_mainV _ L t xs hL (setPars_ok hok hf).1 hxs
+  rw [genRun_free c L free t xs ps hL hok hia hf hxs]
+  exact equiv_mainV _ L t xs hL (setPars_ok hok hia hf).1 hxs
+
+/-- free parameters together with a parameter defined by an initial assignment: refused -/
+theorem genModel_free_refused (c : Content) (L : Lang) (free : List Name) {cache : Cache}
+    (hcc : createCache c = .ok cache) (hfree : free ≠ []) (hia : noIA c.pars = false) :
+    genModel [] c L free = .error (.other "NotImplementedError") := by
+  have : free.isEmpty = false := by cases free with | nil => exact absurd rfl hfree | cons a as => rfl
+  simp [genModel, hcc, this, hia, bind, Except.bind, throw, throwThe, MonadExceptOf.throw]
 
 end Mxl.C07
